@@ -434,6 +434,13 @@ class C01(Spec):
         plan.tree, plan.nodes, plan._src, plan.expr = node, {0: node}, {}, ''
         return plan
 
+    def model_out(self, c, ml):
+        """Model output for the case; when the driver cannot be run the lines say so (the oracle is unaffected)."""
+        try:
+            return self.cache.get(c, self.model_lines)
+        except Exception as e:
+            return [f'no-model ({type(e).__name__})'] * len(ml)
+
     def impl_lines(self, c):
         ml = self.model_lines(c)
         k = c['kind']
@@ -442,7 +449,7 @@ class C01(Spec):
             self._last = (C.case_hash(c), runs)
             if not ml:
                 return []
-            mout = self.cache.get(c, self.model_lines)
+            mout = self.model_out(c, ml)
             plan = S.Plan(c['tree'])
             tol = self.tol(c)
             scale = 1.0
@@ -473,7 +480,7 @@ class C01(Spec):
             return []
         if isinstance(arr, str):
             return [f'err {arr}']
-        mout = self.cache.get(c, self.model_lines)
+        mout = self.model_out(c, ml)
         return [self.compare(self.fn_plan(c), mout[0], arr, 0.0, 1.0)]
 
     # ---- the property itself --------------------------------------------------------------
